@@ -103,6 +103,7 @@ func c20(args []string) int {
 			from, to = q.Pkg, neutralName(q.Pkg)
 			q2 := q
 			q2.Pkg = to
+			q2.ImportAs = q.Pkg // the real import keeps its name; only the shadowing declaration is renamed
 			twin = progenum.ShadowQualified(q2, p.Meta["decl"], sigs[p.Meta["sig"]], p.Meta["args"], p.Meta["ctx"])
 			if p.Meta["decl"] == "fakepkg" {
 				// keep importing the same fake package, under the neutral alias
